@@ -312,7 +312,8 @@ def _child(case, ex, workdir, wfd):
 
 def run_execution(case, ex, workdir):
     """Fork a world process, run the execution, return its outcome (plus the late view of the files)."""
-    _clean_outputs(workdir)
+    if not ex.get("keep_outputs"):
+        _clean_outputs(workdir)           # keep_outputs: the run meets whatever the previous execution left at its paths
     if ex.get("stale"):
         plant_stale(workdir, ex.get("out_name", "out.xmap"))
     rfd, wfd = os.pipe()
